@@ -39,13 +39,14 @@ func init() {
 		Rule: "case = 3 peers with identical numbering, each with a seeded history of 4-10 announcements (first a reply - for one peer in five a partial notification; then reply | partial notify with 0-3 added and 0-2 removed entries in shuffled order, one in four naming one address twice (added+removed, folded in list order) | full notify) over the entity domain " +
 			"{[0],[1],[2],[1,1],[1,2]} with 1-3 features per entity from 6 feature types (operations with their partial sub-flags; one feature in four announces a function from outside the stack's table for its type), interleaved with subscribe/bind calls of the peers and SubscribeToRemote/BindToRemote of local client features. " +
 			"The optional elements of the announcement are varied as well: entities listed by a reply or a full notification (new and known ones) carry lastStateChange absent | added | modified, features and the device description likewise; one partial notification in three has an entry 'modified' that restates a known entity as it is; " +
+			"an entry (listed, 'added' or 'modified') about an entity that is known when the entry is applied leaves the optional element entityType out one time in three (the type is needed to create an entity, not to tell about a known one); " +
 			"label, minimumTrustLevel, specificUsage, featureGroup, maxResponseDelay are filled in at random, a notification may leave deviceInformation out once the device address is known, a full notification is sent with or without the function element. None of these changes the announced tree. " +
 			"One case in three ends with a full notification that restates known entities with other descriptions/features/operations (the reference is the tree of the message). Entity events are also judged at publication time by a core-level handler (published object = resolved object, entity complete; removed address does not resolve). " +
 			"A case is non-trivial if at least one entity appeared through a notification, one disappeared, one multi-entity notification was sent and at least one removal cascaded over a registry entry or bookkeeping flag. " +
-			"distinct = distinct sequences of message shapes (kind, #created, #refreshed, #removed-known, #removed-unknown, nested) over the whole case.",
+			"distinct = distinct sequences of message shapes (kind, #created, #refreshed, #removed-known, #removed-unknown, nested, entry without entityType) over the whole case.",
 		Assumptions: []string{
 			"events are observed at the core level (synchronous with HandleSpineMesssage), so the trace of a message is complete when the call returns",
-			"only device-consistent announcements; [0] with NodeManagement is never announced away (D28 belongs to C05); an address is named at most once as added per notification (the feature list of a message is flat); entity types are a function of the address, so a refresh never changes the type",
+			"only device-consistent announcements; [0] with NodeManagement is never announced away (D28 belongs to C05); an address is named at most once as added per notification (the feature list of a message is flat); entity types are a function of the address, so a refresh never changes the type; an entry that leaves entityType out is only generated for an entity that is known (and has been listed once) when the entry is applied in list order: applied to the previous tree it leaves the type as it was and replaces the rest as any other entry. What an entry without entityType means for an unknown entity is not fixed by the statement and is not generated",
 			"a full notification announces the complete tree: applying it yields the entities of the message with the content of the message. Inside a history full notifications restate known entities identically; the redrawn one is the last message of its case, so a deviation there does not take the reference away from the steps before it",
 			"lastStateChange in a reply or a full notification tells the history of an entry, it is not a command: an entity (feature) that such a message lists with no value, 'added' or 'modified' is part of the announced tree. 'removed' on a listed entry contradicts itself and is not generated; a partial entry 'modified' is only generated with the content the entity already has (what it would mean otherwise is not fixed by the statement), a partial entry without lastStateChange not at all",
 			"which device part the API shows for an entity (and its features) that no announcement has listed yet is not fixed by the statement: replies list [0] until it has been listed once, and no full notification is sent before that",
@@ -398,6 +399,10 @@ type c06EntMsg struct {
 	desc    *string
 	feats   []c06F
 	omitDev bool
+	// omitType: the entry leaves the optional element entityType out. Only set on an entry whose entity is known
+	// (and has been listed before) at the moment the entry is applied: the type is needed to create an entity, an
+	// entry that tells about a known one has nothing new to say about it.
+	omitType bool
 }
 
 // wire: the value of entityInformation.description.lastStateChange of the entry ("" = element left out)
@@ -436,6 +441,9 @@ func (m c06EntMsg) String() string {
 			ops = append(ops, o.String())
 		}
 		fs = append(fs, fmt.Sprintf("%d:%s/%s/%s{%s}", f.id, f.typ, f.role, c06P(f.desc), strings.Join(ops, ",")))
+	}
+	if m.omitType {
+		s += "(no entityType)"
 	}
 	return fmt.Sprintf("%s %s desc=%s feats[%s]", s, c06Key(m.addr), c06P(m.desc), strings.Join(fs, " "))
 }
@@ -484,8 +492,10 @@ func c06Build(c *rig.Ctx, p *rig.Peer, devType *model.DeviceTypeType, fset *mode
 		}
 		desc := &model.NetworkManagementEntityDescriptionDataType{EntityAddress: rig.EA(dev, e.addr), LastStateChange: lscOf(e.wire())}
 		if e.state != "removed" {
-			et := rig.EntityTypeFor(e.addr)
-			desc.EntityType = &et
+			if !e.omitType {
+				et := rig.EntityTypeFor(e.addr)
+				desc.EntityType = &et
+			}
 			if e.desc != nil {
 				desc.Description = util.Ptr(model.DescriptionType(*e.desc))
 			}
@@ -869,6 +879,13 @@ func c06Case(c *rig.Ctx) {
 		var unrefreshed []string             // the tree if a full notification left known entities as they were
 		expectAtAdd := map[string][]string{} // entity -> what it must show when its add event is published
 		nested := false
+		noType := 0
+		knownBefore := map[string]bool{} // entities that are known and have been listed by an announcement
+		for k, e := range t.ents {
+			if e.dev != "" {
+				knownBefore[k] = true
+			}
+		}
 		var ents []c06EntMsg
 		kind := ""
 		listed := func(a []uint, state string) c06EntMsg {
@@ -1085,6 +1102,37 @@ func c06Case(c *rig.Ctx) {
 			c.Count("peers_whose_first_announcement_is_a_notification", 1)
 		}
 		q.begun = true
+		// the optional element entityType: one entry in three that tells about an entity which is known (and has been
+		// listed before) at the moment the entry is applied leaves it out - entries are walked in list order, so an
+		// address that is removed and added again by one notification is unknown again at its second entry. The type is
+		// needed to create an entity; said again or not about a known one, the announced tree is the same.
+		{
+			cur := map[string]bool{}
+			for k := range knownBefore {
+				cur[k] = true
+			}
+			for i := range ents {
+				k := c06Key(ents[i].addr)
+				if ents[i].state == "removed" {
+					delete(cur, k)
+					continue
+				}
+				st := ents[i].state
+				if st == "" {
+					st = "listed"
+				}
+				if cur[k] {
+					c.Count("entries_about_known_entities:"+kind+":"+st, 1)
+					if r.Intn(3) == 0 {
+						ents[i].omitType = true
+						noType++
+						c.Count("entries_about_known_entities_without_entityType:"+kind+":"+st, 1)
+						c.Seen("entries_without_entityType", kind+":"+st)
+					}
+				}
+				cur[k] = true
+			}
+		}
 		var ms []string
 		appearedSet := map[string]bool{}
 		for _, k := range appeared {
@@ -1139,6 +1187,9 @@ func c06Case(c *rig.Ctx) {
 		}
 		if redrawn > 0 {
 			shape += fmt.Sprintf("R%d", redrawn)
+		}
+		if noType > 0 {
+			shape += "T"
 		}
 		shapes = append(shapes, shape)
 		c.Count("messages:"+kind, 1)
